@@ -107,7 +107,7 @@ def parse_criteria(criteria):
     else:
         if any(c in val for c in ('?', '*')):
             # Then use fnmatch
-            return lambda a: fnmatch.fnmatch(val, a)
+            return lambda a: isinstance(a, string_types) and fnmatch.fnmatch(a, val)
         else:
             return lambda a: a == to_number(val)
 
